@@ -25,7 +25,7 @@ NAME_SCHEMES = {
 # to the library, never WHICH instance: 'dorder' = insertion order of the transition dict ('qa' state-major,
 # 'aq' letter-major so that the keys of one state are not adjacent, 'rev' reversed); 'shared' = equal target sets
 # of an NFA are one shared set object.
-KNOBS = {'dorder': None, 'shared': False}      # dorder None: the builder's default (state-major for DFA/NFA)
+KNOBS = {'dorder': None, 'shared': False, 'intern': False}      # dorder None: the builder's default (state-major for DFA/NFA)
 
 
 def names(scheme, n, offset=0):
@@ -109,6 +109,8 @@ def dfa_parts(spec, scheme='s', letters='ab'):
 def fresh(x):
     """An equal but distinct str object (parsers produce such strings; code must compare names with ==, not `is`).
     One-character latin-1 strings are shared objects in CPython and stay so."""
+    if KNOBS.get('intern'):
+        return x                 # presentation knob: equal names are ONE shared object
     return (x + ' ')[:-1] if x else x
 
 
